@@ -64,12 +64,24 @@ pub open spec fn balanced(r: Map<Commodity, real>) -> bool {
         c1 != c2 && r.dom() == set![c1, c2] && r[c1] != 0real && r[c2] != 0real && ((r[c1] > 0real) != (r[c2] > 0real))
 }
 
+/// one rate record: on `date`, 1 `of` = `rate` `with`, learnt from `source`
+pub ghost struct PriceRecord { pub source: PriceSource, pub date: NaiveDate, pub of: Commodity, pub with: Commodity, pub rate: real }
 impl PriceRepositoryBuilder {
-    // price_db.rs insert_impl divides the two amounts of an event by each other
+    /// the records in insertion order (ghost view of `records[with][of]`)
+    pub uninterp spec fn log(&self) -> Seq<PriceRecord>;
+    // price_db.rs insert_impl (ASSUMED, L1: nested entry API): divides the two amounts of an event by each other and
+    // appends the rate to records[price_with.commodity][price_of.commodity]
     #[verifier::external_body]
     pub fn insert_impl(&mut self, source: PriceSource, date: NaiveDate, price_of: SingleAmount, price_with: SingleAmount)
         requires price_of.v() != 0real,
+        ensures final(self).log() == old(self).log().push(PriceRecord { source, date, of: price_of.commodity, with: price_with.commodity, rate: price_with.v() / price_of.v() }),
     { unimplemented!() }
+}
+pub proof fn lemma_reciprocal(x: real, y: real)
+    requires x != 0real, y != 0real,
+    ensures (y / x) * (x / y) == 1real,
+{
+    assert((y / x) * (x / y) == 1real) by(nonlinear_arith) requires x != 0real, y != 0real;
 }
 #[verifier::external_body]
 pub fn havoc_loop_target(v: &mut Vec<Posting>)
